@@ -4,7 +4,7 @@
 EXTENDS Expr
 
 PC0 == 8192   \* $2000: origin; the label lbl and the data directive both sit here
-Env == [ca |-> Num(5), cb |-> Num(-3), cw |-> Num(4660), cz |-> Num(0), cf |-> Num(1193046), lbl |-> Num(PC0),   \* cf = $123456: wider than an address
+Env == [ca |-> Num(5), cb |-> Num(-3), cw |-> Num(4660), cz |-> Num(0), cf |-> Num(1193046), fa |-> Num(8), lbl |-> Num(PC0),   \* cf = $123456: wider than an address
         sa |-> Str(<<97, 98>>), sb |-> Str(<<99>>)]
 
 N(n, radix, lz) == [k |-> "num", n |-> n, radix |-> radix, lz |-> lz]
@@ -18,7 +18,7 @@ Leaves == { N(0,"dec",0), N(1,"dec",0), N(2,"dec",0), N(3,"bin",2), N(7,"dec",1)
             N(255,"hex",0), N(256,"hex",1), N(65535,"hex",0), N(100000,"dec",0),
             [k |-> "bool", b |-> TRUE], [k |-> "bool", b |-> FALSE],
             Id("ca",""), Id("cb",""), Id("cw",""), Id("cz",""), Id("lbl",""),
-            Id("cw","<"), Id("cw",">"), Id("lbl","<"), Id("lbl",">"), Id("cf","<"), Id("cf",">"),
+            Id("cw","<"), Id("cw",">"), Id("lbl","<"), Id("lbl",">"), Id("cf","<"), Id("cf",">"), Id("fa",""), [k |-> "def", name |-> "fa"],
             [k |-> "pc"], [k |-> "def", name |-> "ca"], [k |-> "def", name |-> "nope"] }
 Flags == {<<FALSE,FALSE>>, <<TRUE,FALSE>>, <<FALSE,TRUE>>, <<TRUE,TRUE>>}
 Flagged(S) == {IF f[1] \/ f[2] THEN Fac(f[1], f[2], e) ELSE e : f \in Flags, e \in S}
